@@ -20,7 +20,7 @@ SELECT = {
             "/inv:", "/inv-entry:", "/inv-preserved:", "frame:", "ensures:lookahead", "pre:worker", "pre:io", "__init__@IO/ensures:connected", "pre:callee-invariant"),
     "C05": ("W1-", "W2", "W4-", "W5-", "R5:", "C05-", "lock:", "coverage:", "raises:OSError", "raises-only"),
     "C11": ("R6:", "C11-", "close-when-flushed-means-queue-dropped", "R1[req]", "coverage:", "service@W[service]/loop0"),
-    "C12": ("C12-", "W4-", "W5-", "R5:", "pre:owns-output-state", "R1[out]", "lock:", "W1-", "coverage:", "pre:numbytes", "pre:nonneg"),
+    "C12": ("C12-", "W4-", "W5-", "R5:", "pre:owns-output-state", "R1[out]", "disconnected-before-the-lock-is-released", "lock:", "W1-", "coverage:", "pre:numbytes", "pre:nonneg"),
     "C13": ("C13-", "__init__@IO/raises", "__init__@IO/coverage", "R4:", "pre:worker-never-closes", "no-teardown", "connected-only-cleared", "coverage:", "_flush_some@W/raises", "_flush_some@IOL/raises", "handle_write@IO/raises", "write_soon@W/raises", "handle_close@IO/",
             "dispatcher.send@", "dispatcher.recv@", "handle_read@IO/"),
     "C19": ("C19-", "pre:partial-expecting-request", "pre:holds-requests-lock", "coverage:", "R1[req]:sent_continue", "R1[req]:request-"),
@@ -72,14 +72,17 @@ def main_for(prop, argv=None, level="other"):
         run_monitor(ck, ("channel.",))
     if prop == "C05":
         # "a queued request is never left unserviced while a worker sleeps": every submission to the pool notifies the workers' condition
-        resd = world.run_functions(ck, ["dispatcher"], ["task.ThreadedTaskDispatcher.add_task"], timeout=20, hooks_mod="contracts.dispatcher")
-        world.report(ck, resd, select=lambda n: "C05-" in n or "coverage:" in n or "lock:" in n)
+        resd = world.run_functions(ck, ["dispatcher"], ["task.ThreadedTaskDispatcher.add_task", "task.ThreadedTaskDispatcher.handler_thread"],
+                                   timeout=20, hooks_mod="contracts.dispatcher")
+        # ... and a woken worker survives (a worker that dies on a spurious wake-up leaves the next task without anyone to run it)
+        world.report(ck, resd, select=lambda n: "C05-" in n or "coverage:" in n or "lock:" in n or "handler_thread/raises" in n)
     if prop == "C11":
         # a close decision taken by the PARSER (ambiguous framing) must reach the response: build_response_header honours request.connection_close,
         # so the requests buffered behind such a message are dropped like after any other closing response
         from props import taskworld
-        rest = taskworld.run(ck, ["task.Task.build_response_header"])
-        world.report(ck, rest, select=lambda n: "C01-F7-parser-close-decision-honoured" in n or "coverage:" in n)
+        rest = taskworld.run(ck, ["task.Task.build_response_header", "task.WSGITask.execute"])
+        # ... and a response that turns out not to be delimited (fewer bytes than announced) closes the connection
+        world.report(ck, rest, select=lambda n: "C01-F7-parser-close-decision-honoured" in n or "C03-short-body-closes" in n or "coverage:" in n)
     if prop == "C19":
         # "never for HTTP/1.0": the flag the channel acts on is set by parse_header, only for a 1.1 request that asks for it
         resp = world.run_functions(ck, ["adj", "buffers_abs", "receiver", "parser"], ["parser.HTTPRequestParser.parse_header"],
